@@ -162,8 +162,8 @@ func buildOrderInputs(thorough bool, sub map[*codec][]string) []*ordInput {
 		tl = 4
 	}
 	fragSeqs(cTransport, "", ";", transportFrags, tl, &in)
-	fragSeqs(cRange, "", ";", rangeFrags, 4, &in)
-	fragSeqs(cRTPInfo, "", ";", rtpInfoFrags, 4, &in)
+	fragSeqs(cRange, "", ";", rangeFrags, tl, &in)
+	fragSeqs(cRTPInfo, "", ";", rtpInfoFrags, tl, &in)
 	fragSeqs(cSession, "abc;", ";", sessionFrags, 4, &in)
 	fragSeqs(cSession, "abc; ", "; ", sessionFrags, 2, &in)
 	fragSeqs(cAuthenticate, "Digest ", ", ", authenticateFrags, tl, &in)
@@ -177,7 +177,7 @@ func buildOrderInputs(thorough bool, sub map[*codec][]string) []*ordInput {
 			in = append(in, &ordInput{c: cAuthorization, s: "Digest " + base + ", " + e.s}, &ordInput{c: cAuthorization, s: "Digest " + e.s + ", " + base})
 		}
 	}
-	fragSeqs(cKeyMgmt, "", ";", keyMgmtFrags(), 4, &in)
+	fragSeqs(cKeyMgmt, "", ";", keyMgmtFrags(), tl, &in)
 	{ // two-entry lists: every pair of entries that are themselves sequences of <= 2 fragments
 		var es []*ordInput
 		fragSeqs(cRTPInfo, "", ";", rtpInfoFrags, 2, &es)
@@ -188,8 +188,8 @@ func buildOrderInputs(thorough bool, sub map[*codec][]string) []*ordInput {
 		}
 		var ts []*ordInput
 		fragSeqs(cTransports, "", ";", []string{"RTP/AVP", "RTP/SAVP/TCP", "unicast", "multicast", "ttl=1", "ttl=x", "port=y"}, 2, &ts)
+		fragSeqs(cTransports, "", ";", []string{"RTP/AVP", "RTP/SAVP/TCP", "unicast", "multicast", "ttl=1", "ttl=x", "port=y"}, 3, &in)
 		for _, a := range ts {
-			in = append(in, &ordInput{c: cTransports, s: a.s})
 			for _, b := range ts {
 				in = append(in, &ordInput{c: cTransports, s: a.s + "," + b.s}, &ordInput{c: cTransports, s: a.s + ", " + b.s})
 			}
@@ -203,10 +203,14 @@ func buildOrderInputs(thorough bool, sub map[*codec][]string) []*ordInput {
 			in = append(in, &ordInput{c: c, s: s})
 		}
 	}
-	// stable order (map iteration above) and no duplicates
+	// stable order (map iteration above), shortest inputs first (the first violation of a signature is the one that is
+	// written out), no duplicates
 	sort.Slice(in, func(i, j int) bool {
 		if in[i].c.name != in[j].c.name {
 			return in[i].c.name < in[j].c.name
+		}
+		if len(in[i].s) != len(in[j].s) {
+			return len(in[i].s) < len(in[j].s)
 		}
 		return in[i].s < in[j].s
 	})
@@ -401,7 +405,10 @@ func orderPhase(run *evid.Run, thorough bool, sub map[*codec][]string, enumerate
 		if x.c.file == "" || strings.HasPrefix(x.base, "P:") {
 			return
 		}
-		reps := 32
+		reps := 16
+		if thorough {
+			reps = 32
+		}
 		if !enumerated[x.c.name] {
 			reps = 256
 		}
